@@ -132,7 +132,3 @@ func trimModel(m string) string {
 	return strings.Join(out, "\n")
 }
 
-func cmdCheck(args []string) {
-	fmt.Fprintln(os.Stderr, "check: not implemented yet")
-	os.Exit(2)
-}
